@@ -3,6 +3,7 @@ from .common import jobs_for
 LEVEL = 'proof'
 LEVEL_TEXT = 'diffusion of a constant is zero, central/upwind of a constant equals c*div(u) and the TVD correction of a constant is zero (arbitrary uninterpreted limiter), per axis for a symbolic interior cell on all 9 grids'
 LEVEL_NOTE = 'steady-state corollary through solvePDE relies on the solver contract (A4); explicit-u_upwind-with-exact-zeros is a recorded finding'
+NOT_MACHINE_CHECKED = ['steady state of solvePDE: the uniform field satisfies every assembled row (proved) and is THE solution only if the system is non-singular (A4, Lean unique_solution)']
 MODULES = ['contracts.ops', 'contracts.canaries']
 TRUSTED = ['A1', 'A2', 'A5', 'A6', 'UF']
 
